@@ -304,6 +304,16 @@ def r02_3(ctx, prog, crate):
                              crates=[crate]):
         n += 1
         ok = c.body.path.startswith(allowed_tally)
+        if not ok and c.body.path.startswith("alloc::ThreadAllocInfo::") and c.body.kind != "Closure":
+            # a helper of the tally type itself (whatever it is called): allowed when everything that calls it is
+            def _via(p, seen):
+                if p in seen:
+                    return True
+                seen.add(p)
+                cs = [x for x in prog.callers_of(p, crates=[crate])]
+                return bool(cs) and all(x.body.path.startswith(allowed_tally) or
+                                        (x.body.path.startswith("alloc::ThreadAllocInfo::") and x.body.kind != "Closure" and _via(x.body.path, seen)) for x in cs)
+            ok = _via(c.body.path, set())
         if not ok and c.body.path.startswith("alloc::benches::"):
             # exception (one named module, feature internal_benches): divan's own benchmarks of the tally
             # functions.  Side condition: the benchmark first sets IGNORE_ALLOC, which makes the recorder's
